@@ -80,13 +80,15 @@ def _case(draw):
             items.append(f"[x + {ref} for x in {p}.xs if x > {ref} - 100]")
             used.add(ref_key)
         elif k == 7:  # nested lambda parameter shadows a global / closure variable
-            s = draw(st.sampled_from(["G1", v1_name, "v2", "A", "om"]))
-            if s != p:
-                items.append(f"{p}.xs.Select(lambda {s}: {s} + 1)")
+            s = draw(st.sampled_from(["G1", v1_name, "v2", "A", "om", p]))
+            items.append(f"{p}.xs.Select(lambda {s}: {s} + 1)")
+            if s == p:  # the outer parameter is used again, as a bare name, after an inner scope re-bound its name
+                items.append(f"({p}.n, {p})")
         elif k == 8:  # comprehension target shadows
-            s = draw(st.sampled_from(["G1", v1_name, "v2"]))
-            if s != p:
-                items.append(f"[{s} * 2 for {s} in {p}.xs]")
+            s = draw(st.sampled_from(["G1", v1_name, "v2", p]))
+            items.append(f"[{s} * 2 for {s} in {p}.xs]")
+            if s == p:
+                items.append(f"{p}.xs.Select(lambda q: (q, {p}))")
         elif k == 9:  # depth 3 with a shadow in the innermost lambda and a capture next to it
             s = draw(st.sampled_from(["G1", "v2"]))
             if s != p and ref_key != s:
